@@ -153,9 +153,12 @@ pub(crate) fn scan_and_apply_units<S: TexlangState>(
             }
         };
         if let Some(v) = v_or {
-            let adjusted_fractional_part = v
-                .xn_over_d(fractional_part.0, Scaled::ONE.0)
-                .expect("n<d=Scaled::ONE, so overflow can't occur");
+            // The fractional part can round up to 1 (n=d=Scaled::ONE) and v can be any
+            // 32-bit integer, so this overflows when |v| > MAX_DIMEN (TeX.2021.455).
+            let adjusted_fractional_part = match v.xn_over_d(fractional_part.0, Scaled::ONE.0) {
+                Ok(a) => a,
+                Err(_) => return handle_overflow(input, first_token, v < Scaled::ZERO),
+            };
             return match v.nx_plus_y(integer_part, adjusted_fractional_part.0) {
                 Ok(s) => Ok(s),
                 Err(_) => handle_overflow(input, first_token, v < Scaled::ZERO),
